@@ -1261,10 +1261,19 @@ func slice(x, lo, hi, step_ Value) (Value, error) {
 	n := sliceable.Len()
 	step := 1
 	if step_ != None {
-		var err error
-		step, err = AsInt32(step_)
-		if err != nil {
+		i, ok := step_.(Int)
+		if !ok {
+			_, err := AsInt32(step_)
 			return nil, fmt.Errorf("invalid slice step: %s", err)
+		}
+		// A stride whose magnitude exceeds the length selects at
+		// most one element, as does a stride equal to the length.
+		if x, ok := i.Int64(); ok && -int64(n) <= x && x <= int64(n) {
+			step = int(x)
+		} else if i.Sign() < 0 {
+			step = -max(n, 1)
+		} else {
+			step = max(n, 1)
 		}
 		if step == 0 {
 			return nil, fmt.Errorf("zero is not a valid slice step")
@@ -1355,10 +1364,20 @@ func indices(start_, end_ Value, len int) (start, end int, err error) {
 // if it is negative.  If v is nil or None, *result is unchanged.
 func asIndex(v Value, len int, result *int) error {
 	if v != nil && v != None {
-		var err error
-		*result, err = AsInt32(v)
-		if err != nil {
+		i, ok := v.(Int)
+		if !ok {
+			_, err := AsInt32(v)
 			return err
+		}
+		// An index that does not fit in an int is beyond any
+		// sequence; the caller clamps it to the nearest bound.
+		const maxInt = int(^uint(0) >> 1)
+		if x, ok := i.Int64(); ok && -int64(maxInt) <= x && x <= int64(maxInt) {
+			*result = int(x)
+		} else if i.Sign() < 0 {
+			*result = -maxInt
+		} else {
+			*result = maxInt
 		}
 		if *result < 0 {
 			*result += len
